@@ -49,7 +49,8 @@ type c17res struct {
 	pid       peer.ID
 }
 
-// specification (DESIGN.md B.7), defined for records whose lists have equal lengths
+// specification (DESIGN.md B.7); a metadata list shorter than its provider list
+// leaves the remaining providers without metadata of their own
 func c17spec(rec *model.ProviderInfo, pid peer.ID, ctxID, md []byte) []c17res {
 	out := []c17res{{ctxID, md, rec.AddrInfo.ID}}
 	xp := rec.ExtendedProviders
@@ -73,16 +74,25 @@ func c17spec(rec *model.ProviderInfo, pid peer.ID, ctxID, md []byte) []c17res {
 	}
 	if ctx != nil {
 		for i, p := range ctx.Providers {
-			emit(p, ctx.Metadatas[i])
+			emit(p, c17at(ctx.Metadatas, i))
 		}
 		if ctx.Override {
 			return out
 		}
 	}
 	for i, p := range xp.Providers {
-		emit(p, xp.Metadatas[i])
+		emit(p, c17at(xp.Metadatas, i))
 	}
 	return out
+}
+
+// an extended provider whose index is beyond the metadata list has no metadata
+// of its own ("absent"); surplus metadata entries belong to nobody
+func c17at(mds [][]byte, i int) []byte {
+	if i < len(mds) {
+		return mds[i]
+	}
+	return nil
 }
 
 // C17: expansion of extended providers follows the IPNI rules for any record,
@@ -116,7 +126,7 @@ func VerifC17_GetResults() {
 
 	res, err := pc.GetResults(context.Background(), pid, ctxID, md)
 	verif_Reach("returned")
-	if !equalLens {
+	if !equalLens && err != nil {
 		// list-length mismatch: results or an error, never a panic (implicit)
 		return
 	}
